@@ -22,7 +22,7 @@ UND = [("pos", "G(U) | 0"), ("pos2", "G(1, U) | 0"), ("kw", "G(k=U) | 0"), ("lis
        ("idxname", "G(U[0]) | 0"), ("fn", "G(sin(U)) | 0"), ("arith", "G(1+2*U) | 0"), ("neg", "G(-U) | 0"), ("pow", "G(2**U) | 0"), ("looplist", "for int j in [0, U]\n    G | j"),
        ("loopbody", "for int j in 0:2\n    G(U) | j"), ("loopmode", "for int j in 0:2\n    G | [j, U]"), ("scalar", "float y = U"), ("scalarexpr", "int y = 2*U+1"),
        ("arrayel", "float array C =\n    1, U"), ("arrayel0", "float array C =\n    U, 1\n    2, 3"), ("kwexpr", "G(1, k=U**2) | 0"), ("measure", "MeasureX(phi=U) | 0"), ("grp", "G((U)) | 0")]
-NAMES = ["uu", "y2", "Sgate_x"]
+NAMES = ["uu", "y2", "Sgate_x", "q1x", "q0_gain", "q10n", "pix", "sqrt2", "p0", "Truex", "e1", "j2"]     # the later ones look like registers, constants, functions, p-arrays, booleans, exponents, imaginary units
 RESERVED = ["q0", "q12", "name", "version", "target", "type"]
 DECLS = [("int", "int R = 1"), ("float", "float R = 1.5"), ("complex", "complex R = 1+2j"), ("bool", "bool R = True"), ("str", 'str R = "s"'),
          ("arr", "float array R =\n    1, 2"), ("arrshape", "int array R[1, 2] =\n    1, 2"), ("carr", "complex array R =\n    1j")]
